@@ -29,9 +29,7 @@ def _trace_for(r, o, g):
             break
     if gb is None:
         return None, 'instrumented binary not kept'
-    cmd = ['cbmc', gb] + pipeline.CBMC_CHECKS + list(g.get('cbmc_flags', [])) + ['--property', o['id'], '--trace', '--json-ui']
-    if not (g.get('enforce') or g.get('enforce_rec') or g.get('replace') or g.get('dfcc', True)):
-        cmd += ['--unwind', str(max(g.get('unwind', 1), 1))]
+    cmd = [x for x in pipeline.cbmc_cmd(g, gb, trace=True, props=[o['id']])]
     jp = os.path.join(wd, 'trace.json')
     rc, err, dt = pipeline.run(cmd, g.get('timeout', 300), g.get('mem_gb', 12), stdout_path=jp)
     try:
